@@ -317,6 +317,16 @@ pub(crate) async fn process_socket_command(
       };
       tracing::warn!(handle=core_handle, %endpoint_uri, %error, "UringFdError — closing connection.");
 
+      // disconnect() / close() on this socket closed the connection: not a loss to recover from.
+      let closed_by_owner = conn_iface_opt
+        .as_ref()
+        .and_then(|iface| {
+          iface
+            .as_any()
+            .downcast_ref::<crate::io_uring_backend::zmtp_handler::ZmtpSmartConnection>()
+        })
+        .map_or(false, |conn| conn.closed_by_owner());
+
       if let Some(iface) = conn_iface_opt {
         if let Err(e) = iface.close_connection().await {
           tracing::warn!(handle=core_handle, %endpoint_uri, "close_connection error: {}", e);
@@ -337,7 +347,7 @@ pub(crate) async fn process_socket_command(
       .await;
       // Same passive back-off as for a session actor that stopped (handle_actor_stopping_event):
       // the command loop picks the entry up and respawns the connecter.
-      if should_consider_reconnect && current_shutdown_phase == ShutdownPhase::Running {
+      if should_consider_reconnect && !closed_by_owner && current_shutdown_phase == ShutdownPhase::Running {
         if let Some(target_uri) = reconnect_target_opt {
           let mut state = core_arc.core_state.write();
           let base = state.options.reconnect_ivl.unwrap_or(std::time::Duration::from_millis(100));
